@@ -11,21 +11,21 @@ Print Assumptions C07_at_most_one_per_topic.
 
 (* retain-set / retain-clear never touch a subscription list (they rebuild the path with the same
    [nsubs] at every node); stated on one step at the root level *)
-Theorem C07_retain_keeps_root_subs : forall p m e n, nsubs (retain p m e n) = nsubs n.
+Theorem C07_retain_keeps_root_subs : forall p m e ow n, nsubs (retain p m e ow n) = nsubs n.
 Proof.
-  intros p m e n. unfold retain.
+  intros p m e ow n. unfold retain.
   assert (forall p n, nsubs (ret_remove p n) = nsubs n) as Hr.
   { intros p0 n0. destruct p0 as [|l p']; cbn [ret_remove]; [reflexivity|]. destruct (findk l (nkids n0)); reflexivity. }
   assert (forall p m n, nsubs (ret_insert p m n) = nsubs n) as Hi.
   { intros p0 m0 n0. destruct p0; reflexivity. }
-  destruct e; [apply Hr|]. destruct (m_qos m =? 0); [rewrite Hi; apply Hr|apply Hi].
+  destruct e; [apply Hr|]. destruct ((m_qos m =? 0) && negb ow); [rewrite Hi; apply Hr|apply Hi].
 Qed.
 Print Assumptions C07_retain_keeps_root_subs.
 
 (* ... and nowhere else in the tree either: setting or clearing a retained message never adds, removes or
    alters any subscription, at any depth, and keeps the tree well-formed *)
-Theorem C07_retain_preserves_all_subs : forall p m e n, wf n ->
-  wf (retain p m e n) /\ forall q x, In (q, x) (tsubs (retain p m e n)) <-> In (q, x) (tsubs n).
+Theorem C07_retain_preserves_all_subs : forall p m e ow n, wf n ->
+  wf (retain p m e ow n) /\ forall q x, In (q, x) (tsubs (retain p m e ow n)) <-> In (q, x) (tsubs n).
 Proof. exact retain_spec. Qed.
 Print Assumptions C07_retain_preserves_all_subs.
 
@@ -47,12 +47,26 @@ Theorem C07_retained_walk_full : forall h f, valid_history h -> vfilter (split f
 Proof. exact retained_walk_history. Qed.
 Print Assumptions C07_retained_walk_full.
 
+(* which of the two shapes of [retain] a provider has is read from its source on every run: topics/mem removes
+   first also for a QoS 0 publish (both steps under its one lock: [overwrite] = false), the lock-free index removes
+   for an empty payload only ([overwrite] = true; why it must: props/C09.v) *)
+From Coq Require String.
+From VMQ Require gen.Extracted.
+Import String.StringSyntax Ascii.AsciiSyntax.
+Open Scope string_scope.
+Theorem C07_replace_shapes :
+  Extracted.mem_retain_remove_guards = ["ok && len(t.Payload()) == 0 || t.QoS() == mqttp.QoS0"] /\
+  Extracted.lf_retain_remove_guards = ["len(t.Payload()) == 0"].
+Proof. vm_compute. split; reflexivity. Qed.
+Close Scope string_scope.
+Print Assumptions C07_replace_shapes.
+
 (* Retain Handling (send always / only for a new subscription / never) and RETAIN=1 on what is sent are
    the correspondence check's and C08's; message expiry enters as a flag on the stored message. *)
 
 Example C07_nonvacuous :
-  let h := [ORetain [97;47;98] (mkMsg 1 1 false) false; ORetain [36;115;47;120] (mkMsg 2 1 false) false;
-            ORetain [97;47;98] (mkMsg 3 2 false) false; ORetain [99] (mkMsg 4 1 false) false; ORetain [99] (mkMsg 5 1 false) true] in
+  let h := [ORetain [97;47;98] (mkMsg 1 1 false) false true; ORetain [36;115;47;120] (mkMsg 2 1 false) false false;
+            ORetain [97;47;98] (mkMsg 3 0 false) false true; ORetain [99] (mkMsg 4 0 false) false false; ORetain [99] (mkMsg 5 1 false) true true] in
   map m_tag (ret_search_top (split [43;47;98]) (run h)) = [3] /\
   map m_tag (ret_search_top (split [35]) (run h)) = [3] /\
   map m_tag (ret_search_top (split [36;115;47;35]) (run h)) = [2] /\
